@@ -13,7 +13,7 @@ FMT, PAR = "rssl_formatter", "rssl_parser"
 KW = {"struct": "Struct", "enum": "Enum", "cbuffer": "ConstantBuffer", "typedef": "Typedef", "namespace": "Namespace", "register": "Register", "const": "Const", "volatile": "Volatile",
       "if": "If", "else": "Else", "for": "For", "while": "While", "do": "Do", "switch": "Switch", "break": "Break", "continue": "Continue", "discard": "Discard", "return": "Return",
       "case": "Case", "default": "Default", "template": "Template", "typename": "Typename"}
-PU = {"(": "LeftParen", ")": "RightParen", ";": "Semicolon", ":": "Colon", "{": "LeftBrace", "}": "RightBrace", "[": "LeftSquareBracket", "]": "RightSquareBracket", ",": "Comma", "=": "Equals"}
+PU = {"*": "Asterix", "&": "Ampersand", "(": "LeftParen", ")": "RightParen", ";": "Semicolon", ":": "Colon", "{": "LeftBrace", "}": "RightBrace", "[": "LeftSquareBracket", "]": "RightSquareBracket", ",": "Comma", "=": "Equals"}
 
 
 def opt(v):
@@ -54,7 +54,7 @@ def tk(k, v=None):
 
 def lex(text):
     toks, pos = [], 0
-    for m in re.finditer(r"(\w+)|([(){};:\[\],=])|\s+", text):
+    for m in re.finditer(r"(\w+)|([(){};:\[\],=*&])|\s+", text):
         if m.start() != pos:
             return None
         pos = m.end()
@@ -126,7 +126,14 @@ PEXT = {"parse_type": _consume("T_", lambda w: I.Enum("Type", "Tagged", {"tag": 
         "parse_attribute": lambda a: _fail(deref(a[0])), "parse_attribute_double_only": lambda a: _fail(deref(a[0])), "parse_template_params": lambda a: ok((deref(a[0]), I.Enum("TemplateParamList", None, {"0": []})))}
 
 
-def roundtrip(facts, fmt_fn, parse_fn, value, extra_fmt_args=(), depth=16):
+def roundtrip(facts, fmt_fn, parse_fn, value, extra_fmt_args=(), depth=16, real=()):
+    """`real`: names of stand-ins to drop on both sides (the repository's own functions are walked instead)."""
+    fext = {k: v for k, v in FEXT.items() if k not in real}
+    pext = {k: v for k, v in PEXT.items() if k not in real}
+    return _roundtrip(facts, fmt_fn, parse_fn, value, extra_fmt_args, depth, fext, pext)
+
+
+def _roundtrip(facts, fmt_fn, parse_fn, value, extra_fmt_args, depth, FEXT, PEXT):
     """-> ('same', text) | ('differs', text, tree) | ('rejected', text) | ('prefix', text) | ('refused',) | ('aborts'|'unreadable', where, why)"""
     env = {"out": ""}
     ctx = I.Enum("FormatContext", None, {"indent": 0, "target": I.Enum("Target", "Hlsl")})
